@@ -10,7 +10,8 @@ SIDES = ["s1", "s2", "s3", "s4"]
 NAMES = ["1", "2", "7", "42", "007", "np-x", "１２"]
 MOODS = ["happy", "lonely", "scary", "errory", "weirdé", None, "ABSENT"]
 UNICODE = ["", "\u0000x", "nul\u0000", "\U0001F600", "é", "‮RTL", "퟿", "x" * 300,
-           "\"quote\\", "a b\tc\n", "￿", "y" * 70000]
+           "\"quote\\", "a b\tc\n", "￿", "y" * 70000,
+           "e\u0301", "\u212b", "ﬁ", " lead", "trail ", "MiXeD", "ß", "İ", "0", "00", "-1", "1e3", "null", "true"]
 
 BASE = {
     "napps": (1, 3), "nsides": (2, 4), "steps": (8, 40),
